@@ -4,7 +4,7 @@ From Coq.Strings Require Import Byte.
 From LOF Require Import Base.Bytes Base.Res Model.Wire Model.Build Model.BuildSw Model.Proto Model.Parse Spec.Walk
   Proofs.WireP Proofs.BuildP Proofs.NormP Proofs.WalkP Proofs.WalkAllP Proofs.WalkMsgP Proofs.SegP
   Proofs.ParseRtAllP Proofs.ParseRtAll2P Proofs.ParseRtAll3P Proofs.ParseRtAll4P Proofs.ParseRtAll5P Proofs.ParseRtAll6P
-  Proofs.ParseSwAllP Proofs.ParseSwAll2P.
+  Proofs.ParseSwAllP Proofs.ParseSwAll2P Proofs.ParseSwHelloP.
 Import ListNotations.
 Open Scope N_scope.
 Ltac Zify.zify_post_hook ::= Z.div_mod_to_equations.
@@ -170,6 +170,7 @@ Definition sw_ok (s : swrec) : bool :=
   | SMpAggregate fl p b f => (fl <? 65536) && (p <? 18446744073709551616) && (b <? 18446744073709551616) && (f <? 4294967296)
   | SMpFlow fl recs => (fl <? 65536) && forallb flowstat_ok recs && (sumN (map glen (map flowstat_view recs)) <? 65000)
   | STlvReply sp fl maps => (sp <? 4294967296) && (fl <? 65536) && forallb map_ok maps && (N.of_nat (length maps) <? 8000)
+  | SHello es => hello_ok es
   end.
 
 (* the payload of a packet-in is a packet the packet decoder reads back (C09 is about those) *)
@@ -193,6 +194,7 @@ Proof.
     - repeat match goal with Hd : Nat.eqb _ _ = true |- _ => apply Nat.eqb_eq in Hd end. apply sw_mp_desc; try assumption; lia.
     - apply sw_mp_aggregate; lia.
     - apply sw_mp_flow; try assumption; lia.
-    - apply sw_tlv_reply; try assumption; lia. }
+    - apply sw_tlv_reply; try assumption; lia.
+    - apply sw_hello; [|exact Hx]. first [assumption | (unfold hello_ok; apply andb_true_iff; split; assumption)]. }
   destruct (length (wire (sw_tree xid s))); cbn [parse]; rewrite Hpb; reflexivity.
 Qed.
